@@ -179,8 +179,8 @@ class Ctx:
 
     def run_lines(self, exe, script, timeout=None, env=None, args=()):
         """run a line-protocol program on a script -> (rc, stdout lines, stderr tail).
-        A run that exceeds its time limit is a result (rc 124, reported as a hang by the callers);
-        after two of them the limit for the remaining runs of this check drops to 20 s, so a change
+        A run that exceeds its time limit, and does so again when repeated alone with three times the
+        limit, is a result (rc 124, reported as a hang by the callers); after two of them the limit for the remaining runs of this check drops to 20 s, so a change
         that makes the code spin costs minutes, not hours."""
         if timeout is None:
             timeout = 180 if getattr(self, "tier", "quick") == "quick" else 600
@@ -191,15 +191,25 @@ class Ctx:
         e.setdefault("UBSAN_OPTIONS", "print_stacktrace=1")
         if env:
             e.update(env)
-        try:
+        def once(limit):
             r = subprocess.run([exe] + list(args), input=script, stdout=subprocess.PIPE,
-                               stderr=subprocess.PIPE, text=True, timeout=timeout, env=e,
+                               stderr=subprocess.PIPE, text=True, timeout=limit, env=e,
                                errors="replace")
             return r.returncode, r.stdout.splitlines(), r.stderr[-3000:]
+        try:
+            return once(timeout)
+        except subprocess.TimeoutExpired:
+            pass
+        # A loaded machine can make a healthy run look like a hang (seen at load average 126: a 1 s
+        # script took > 300 s next to 13 others).  A hang is only reported after the same run, alone
+        # (one confirmation at a time across all checks of this tree), exceeded three times the limit.
+        try:
+            with build.Lock("confirm-hang"):
+                return once(3 * timeout)
         except subprocess.TimeoutExpired as ex:
             so = ex.stdout.decode(errors="replace") if isinstance(ex.stdout, bytes) else (ex.stdout or "")
             self._timeouts = getattr(self, "_timeouts", 0) + 1
-            return 124, so.splitlines(), "TIMEOUT after %ss" % timeout
+            return 124, so.splitlines(), "TIMEOUT after %ss (confirmed alone with %ss)" % (timeout, 3 * timeout)
 
 
 def pmap(fn, items, workers=14):
